@@ -13,6 +13,7 @@ the Coq model (Model/Bound.v run_case) and compared observation by observation.
 Revision ids are b"r<n>" with n = number of revisions created so far, which is
 the id the model gives the revision (its index in the shared Lib/Dag graph).
 """
+import atexit
 import contextlib
 import os
 import shutil
@@ -75,6 +76,7 @@ def _ensure():
     d = tempfile.mkdtemp(prefix="verif-c23-", dir=sd if sd and os.path.isdir(sd) else None)
     if not os.path.isdir(os.environ.get("BRZ_HOME", "")):
         os.environ["BRZ_HOME"] = d       # replay / shrink outside setup(): the scratch home is gone
+    atexit.register(shutil.rmtree, d, True)    # shrink/replay run after teardown(): nobody else removes it
     _state.update(dir=d, own=True, n=0, lock_timeout=lockdir._DEFAULT_TIMEOUT_SECONDS)
     lockdir._DEFAULT_TIMEOUT_SECONDS = 0
     ui.ui_factory = ui.SilentUIFactory()
@@ -178,7 +180,7 @@ def cases(rng, tier):
         pairs = rng.sample(pairs, 24)
     for a, b in pairs:
         yield _case(STD, True, [a, b, ["c", 1, 0, -1], ["u", 1]])
-    n = 110 if tier == "quick" else 2200
+    n = 110 if tier == "quick" else 1000
     for _ in range(n):
         x = rng.random()
         if x < 0.7:
